@@ -129,6 +129,18 @@ def run(chk, prog):
     chms, IDX = ("attr", SELF, "chms"), ("attr", SELF, "idx")
     okswf = is_call(r.ret, "build") and r.ret[2] == (IDX, ("fam", chms, ("call", ("attr", mk_elem(chms), "filter"), (SEL,), ())))
     chk.require(okswf, "CHM-RECURSE", "Switch.filter", "every branch filtered with the same selection", derived=show(r.ret)[:200], expected="Switch.build(idx, [chm.filter(selection) for chm in chms])", where=W(sw, "filter"))
+    # Switch.build: a concrete index picks the branch's map; a traced index keeps EVERY branch, branch i masked by (i == idx), at its ORIGINAL position
+    # (filter / mask / | rebuild through Switch.build(self.idx, ...) and re-enumerate the list: dropping a branch shifts the positions of all later ones)
+    rb = ev.eval_fn(sw.methods["build"], sw.module, sw)
+    CI = P("chm_iter")
+    conc = [t for c_, t in rb.returns if any(is_t(x, "isinst") and p_ and x[2] == "int" for x, p_ in c_)]
+    trac = [t for c_, t in rb.returns if any(is_t(x, "isinst") and not p_ and x[2] == "int" for x, p_ in c_)]
+    okb1 = len(conc) == 1 and conc[0] == ("index", ("call", ("global", "list"), (CI,), ()), P("idx"))
+    want = ("ctor", "Switch", (P("idx"), ("fam", ("enumerate", CI), ("call", ("attr", ("elem", CI), "mask"), (("cmp", "==", ("enumidx", CI), P("idx")),), ()))), ())
+    want2 = ("ctor", "Switch", (P("idx"), ("fam", ("enumerate", CI), ("call", ("attr", ("elem", CI), "mask"), (("cmp", "==", P("idx"), ("enumidx", CI)),), ()))), ())
+    okb2 = len(trac) == 1 and trac[0] in (want, want2)
+    chk.require(okb1 and okb2, "CHM-RECURSE", "Switch.build", "branch i masked by (i == idx), every branch kept in place", derived=show(trac[0])[:260] if trac else "no traced-index arm",
+                expected="int idx: list(chms)[idx]; traced idx: Switch(idx, [chm.mask(i == idx) for i, chm in enumerate(chms)]) - no branch dropped or reordered", where=W(sw, "build"))
     r = ev.eval_fn(sw.methods["get_inner_map"], sw.module, sw)
     okswg = r.ret == ("ctor", "Switch", (IDX, ("fam", chms, ("call", ("attr", mk_elem(chms), "get_inner_map"), (ADDR,), ()))), ())
     chk.require(okswg, "CHM-RECURSE", "Switch.get_inner_map", "every branch looked up at the same address", derived=show(r.ret)[:200], expected="Switch(idx, [chm.get_inner_map(addr) for chm in chms])", where=W(sw, "get_inner_map"))
@@ -179,3 +191,6 @@ def run(chk, prog):
     chk.require(okb, "CHM-LEFTBIAS", "_ChoiceMapBuilder.set", "the new entry goes on the LEFT of the existing map (it overrides)", derived={k: show(v)[:120] for k, v in got.items()}.__str__(), expected="entry + self.choice_map", where=W(b, "set"))
     chm_mask_rules(chk, prog)
     chk.explanation = "left bias, recursion discipline, mask/index propagation and selection transparency of the five ChoiceMap classes (structural clauses)"
+    # `|` on two entries at the same address is Mask.__or__ (left-biased on flags), masks are built by Mask.build and collapsed by Mask.flatten: C19's tables
+    from ._share import take
+    take(chk, prog, "C19", lambda o: o["instance"].split("/")[0] in ("Mask.__or__", "Mask.build", "Mask.flatten", "Mask.or_n"), "Mask tables used by choice maps (from C19)", 2)
